@@ -17,6 +17,8 @@ import LiteFSVerif.Proofs.Protocol
 import LiteFSVerif.Props.C09
 import LiteFSVerif.Gen.Facts
 import LiteFSVerif.Proofs.ApplyBytes
+import LiteFSVerif.Gen.Skel
+import LiteFSVerif.Model.ExpectedSkel
 
 namespace LiteFSVerif.C06
 open LiteFSVerif LiteFSVerif.Cks LiteFSVerif.Cluster LiteFSVerif.Protocol LiteFSVerif.Engine
@@ -36,7 +38,7 @@ theorem C06_source_decisions :
        ("dec.Header().PreApplyChecksum != preApplyChecksum", "snapshot")] ∧
     Gen.Facts.processFrameConds =
       [("hdr.NodeID == s.ID() && db.Pos().TXID >= hdr.MaxTXID", "skip"),
-       ("haltLock != nil", "error"),
+       ("haltLock != nil && hdr.MaxTXID > haltLock.Pos.TXID", "error"),
        ("!hdr.IsSnapshot()", "error"),
        ("expectedPos", "ltx.Pos{ TXID: hdr.MinTXID - 1, PostApplyChecksum: hdr.PreApplyChecksum, }"),
        ("pos != expectedPos", "error"),
@@ -151,7 +153,7 @@ theorem C06_reject_unchanged_engine (s : Eng) (self : Nat) (f : LTXFile) (hdb : 
     let r := (Cluster.deliver s self f).1
     r.dbFile = s.dbFile ∧ r.wal = s.wal ∧ r.journal = s.journal ∧ r.posTxid = s.posTxid ∧ r.posChk = s.posChk ∧
     r.ltx = s.ltx ∧ r.pageN = s.pageN ∧ r.exit = s.exit := by
-  simp only [Cluster.deliver, hdb, hnh, if_true, Bool.false_eq_true, if_false]
+  simp only [Cluster.deliver, hdb, hnh, if_true, Bool.false_eq_true, false_and, if_false]
   split
   · exact ⟨rfl, rfl, rfl, rfl, rfl, rfl, rfl, rfl⟩
   · unfold receiveLTX
@@ -210,5 +212,14 @@ theorem C06_incremental_touches_only_its_pages (s s' : Engine.Eng) (f : Engine.L
   have : Engine.dbBytes s' = d := by unfold Engine.dbBytes; rw [h1]; rfl
   rw [this, h5 i (by rw [h4]; exact hi)]
   exact Engine.byteAfterFrom_uncovered _ _ _ _ hunc
+
+/-- the control skeletons (branch conditions, loop heads, returns, order of calls and of state
+    assignments) of `DB.WriteLTXFileAt`, `Store.processLTXStreamFrame`, regenerated from the current source on every run, are the ones the
+    model was written and validated against (Model/ExpectedSkel.lean): a reordered, dropped or
+    altered check or call in these functions breaks this theorem -/
+theorem C06_source_skeletons :
+    Gen.Skel.DB_WriteLTXFileAt = Expected.Skel.DB_WriteLTXFileAt ∧
+    Gen.Skel.Store_processLTXStreamFrame = Expected.Skel.Store_processLTXStreamFrame :=
+  ⟨rfl, rfl⟩
 
 end LiteFSVerif.C06
